@@ -6,6 +6,10 @@
 (*    am : self.<x>_<m> = v    (struct x without combined access methods)    *)
 (*    as : self.<x> = sv       (struct x with combined access methods)       *)
 (*    ai : self.r_idx = i      (index of the float parameter r)              *)
+(* or a hardware access through the generated methods (they hold the module's *)
+(* access lock from the driver call to the last announcement)                 *)
+(*    rs : read_<x>()          reads all members of struct x from the hardware *)
+(*    wm : write_<x>_<m>(v)    writes one member to the hardware              *)
 (* and is observed through the updates it announces (kind str / mem / idx /  *)
 (* flt).  The first announcement of a job is the point where the whole job   *)
 (* takes effect; until all its announcements were seen no other thread       *)
@@ -15,13 +19,15 @@ CONSTANTS Threads, Structs, Members, Vals, Idxs
 
 Tab(i) == CASE i = 0 -> 1 [] i = 1 -> 3 [] i = 2 -> 7 [] OTHER -> 0
 
-VARIABLES str, mem, idx, fval,      \* struct and member caches per struct name, index and float
+VARIABLES hw,                       \* what the hardware holds, per struct name and member
+          str, mem, idx, fval,      \* struct and member caches per struct name, index and float
           script, pos,              \* jobs of every thread and the number of the next one
           busy, pend                \* the thread whose job is being announced, what it still has to announce
-svars == <<str, mem, idx, fval, script, pos, busy, pend>>
+svars == <<hw, str, mem, idx, fval, script, pos, busy, pend>>
 
 Fn == [Members -> Vals]
-SInit(sc) == /\ str = [x \in Structs |-> [m \in Members |-> 0]] /\ mem = str
+SInit(sc, hw0) == /\ hw = hw0
+             /\ str = [x \in Structs |-> [m \in Members |-> 0]] /\ mem = str
              /\ idx = 0 /\ fval = Tab(0)
              /\ script = sc /\ pos = [w \in DOMAIN sc |-> 1]
              /\ busy = "none" /\ pend = {}
@@ -30,11 +36,18 @@ SInit(sc) == /\ str = [x \in Structs |-> [m \in Members |-> 0]] /\ mem = str
 Emits(j) == CASE j.k = "am" -> {<<"str", j.x, "">>, <<"mem", j.x, j.m>>}
               [] j.k = "as" -> {<<"str", j.x, "">>} \cup {<<"mem", j.x, m>> : m \in Members}
               [] j.k = "ai" -> {<<"idx", "", "">>, <<"flt", "", "">>}
+              [] j.k = "rs" -> {<<"str", j.x, "">>} \cup {<<"mem", j.x, m>> : m \in Members}
+              [] j.k = "wm" -> {<<"str", j.x, "">>, <<"mem", j.x, j.m>>}
 Apply(j) == CASE j.k = "am" -> /\ mem' = [mem EXCEPT ![j.x][j.m] = j.v]
-                               /\ str' = [str EXCEPT ![j.x][j.m] = j.v] /\ UNCHANGED <<idx, fval>>
+                               /\ str' = [str EXCEPT ![j.x][j.m] = j.v] /\ UNCHANGED <<hw, idx, fval>>
               [] j.k = "as" -> /\ mem' = [mem EXCEPT ![j.x] = j.sv]
-                               /\ str' = [str EXCEPT ![j.x] = j.sv] /\ UNCHANGED <<idx, fval>>
-              [] j.k = "ai" -> idx' = j.i /\ fval' = Tab(j.i) /\ UNCHANGED <<str, mem>>
+                               /\ str' = [str EXCEPT ![j.x] = j.sv] /\ UNCHANGED <<hw, idx, fval>>
+              [] j.k = "ai" -> idx' = j.i /\ fval' = Tab(j.i) /\ UNCHANGED <<hw, str, mem>>
+              [] j.k = "rs" -> /\ mem' = [mem EXCEPT ![j.x] = hw[j.x]]
+                               /\ str' = [str EXCEPT ![j.x] = hw[j.x]] /\ UNCHANGED <<hw, idx, fval>>
+              [] j.k = "wm" -> /\ hw' = [hw EXCEPT ![j.x][j.m] = j.v]
+                               /\ mem' = [mem EXCEPT ![j.x][j.m] = j.v]
+                               /\ str' = [str EXCEPT ![j.x][j.m] = j.v] /\ UNCHANGED <<idx, fval>>
 (* value of a parameter in the state after the step *)
 ValueOK(p, v) == CASE p[1] = "str" -> v = str'[p[2]]
                    [] p[1] = "mem" -> v = mem'[p[2]][p[3]]
@@ -52,7 +65,7 @@ Announce(w, p, v) ==
             /\ pos' = [pos EXCEPT ![w] = pos[w] + 1]
        ELSE /\ busy = w /\ p \in pend
             /\ pend' = pend \ {p} /\ busy' = (IF pend = {p} THEN "none" ELSE w)
-            /\ UNCHANGED <<str, mem, idx, fval, pos>>
+            /\ UNCHANGED <<hw, str, mem, idx, fval, pos>>
     /\ ValueOK(p, v)
     /\ UNCHANGED script
 
